@@ -251,6 +251,87 @@ theorem C10_tokens (t : Token) (b : Block) (self : Addr) (rw : Res Addr) (hubc s
 example : ∃ h, hubInit 1 0 30 100 0 D 1 3 = .ok h ∧ ¬ hubPrincipalOk h 100 5 (.setOwner 5) :=
   ⟨_, rfl, by simp [hubPrincipalOk]⟩
 
+/-! ### An accepted UpdateConfig makes the principals it names the principals
+
+  The tables above are relative to the configuration a contract *stores*. These say that an accepted
+  UpdateConfig stores every address it names and leaves every field it does not name alone — so the
+  hub the owner designates is authorised afterwards and the former one is an ordinary sender. -/
+
+theorem C10_dispatcher_update_applies (c c' : DispSt) (self : Addr) (env : DispEnv) (sender : Addr)
+    (hub reward : Option Addr) (sd bd : Option Denom) (keeper : Option Addr) (rate : Option Nat) (ms : List Msg)
+    (hx : dispExec c self env sender (.updateConfig hub reward sd bd keeper rate) = .ok (c', ms)) :
+    c'.hub = hub.getD c.hub ∧ c'.rewardContract = reward.getD c.rewardContract ∧
+    c'.keeper = keeper.getD c.keeper ∧ c'.keeperRate = rate.getD c.keeperRate ∧
+    c'.bDenom = bd.getD c.bDenom ∧ c'.stDenom = c.stDenom ∧ c'.owner = c.owner ∧ c'.newOwner = c.newOwner ∧
+    c'.swapContract = c.swapContract ∧ c'.swapDenoms = c.swapDenoms ∧ c'.oracle = c.oracle ∧ ms = [] := by
+  simp only [dispExec, bind, Except.bind, throw, throwThe, MonadExceptOf.throw, pure, Except.pure] at hx
+  split at hx
+  · cases hx
+  · split at hx
+    · cases hx
+    · cases rate with
+      | none =>
+        simp only [] at hx
+        injection hx with h1; injection h1 with h1 h2; subst h1; subst h2
+        exact ⟨rfl, rfl, rfl, rfl, rfl, rfl, rfl, rfl, rfl, rfl, rfl, rfl⟩
+      | some r =>
+        simp only [] at hx
+        split at hx
+        · cases hx
+        · injection hx with h1; injection h1 with h1 h2; subst h1; subst h2
+          exact ⟨rfl, rfl, rfl, rfl, rfl, rfl, rfl, rfl, rfl, rfl, rfl, rfl⟩
+
+/-- ... in particular, after the owner re-points the dispatcher — whatever else travels in the same
+    message — the former hub's swap and dispatch are refused. -/
+theorem C10_dispatcher_former_hub_refused (c c' : DispSt) (self : Addr) (env env' : DispEnv) (sender newHub : Addr)
+    (reward : Option Addr) (sd bd : Option Denom) (keeper : Option Addr) (rate : Option Nat) (ms : List Msg)
+    (hx : dispExec c self env sender (.updateConfig (some newHub) reward sd bd keeper rate) = .ok (c', ms))
+    (hne : c.hub ≠ newHub) (a b : Nat) :
+    isErr (dispExec c' self env' c.hub .dispatch) ∧ isErr (dispExec c' self env' c.hub (.swap a b)) := by
+  have h := (C10_dispatcher_update_applies c c' self env sender _ reward sd bd keeper rate ms hx).1
+  simp only [Option.getD] at h
+  exact ⟨C10_dispatcher c' self env' c.hub .dispatch (by simpa [h] using hne),
+         C10_dispatcher c' self env' c.hub (.swap a b) (by simpa [h] using hne)⟩
+
+theorem C10_reward_update_applies (r r' : RewardSt) (self : Addr) (tk dp : Res Addr) (bb : Denom → Nat) (sender : Addr)
+    (hub : Option Addr) (denom : Option Denom) (swap : Option Addr) (ms : List Msg)
+    (hx : rewardExec r self tk dp bb sender (.updateConfig hub denom swap) = .ok (r', ms)) :
+    r'.hub = hub.getD r.hub ∧ r'.rewardDenom = denom.getD r.rewardDenom ∧ r'.swapContract = swap.getD r.swapContract ∧
+    r'.owner = r.owner ∧ r'.newOwner = r.newOwner ∧ ms = [] := by
+  simp only [rewardExec] at hx
+  split at hx
+  · cases hx
+  · injection hx with h1; injection h1 with h1 h2; subst h1; subst h2
+    exact ⟨rfl, rfl, rfl, rfl, rfl, rfl⟩
+
+theorem C10_registry_update_applies (s : Sys) (r' : RegSt) (sender : Addr) (hub : Option Addr) (ms : List Msg)
+    (hx : s.regExec sender (.updateConfig hub) = .ok (r', ms)) :
+    r'.hub = hub.getD s.reg.hub ∧ r'.owner = s.reg.owner ∧ r'.newOwner = s.reg.newOwner ∧ r'.vals = s.reg.vals ∧ ms = [] := by
+  simp only [Sys.regExec] at hx
+  split at hx
+  · cases hx
+  · injection hx with h1; injection h1 with h1 h2; subst h1; subst h2
+    exact ⟨rfl, rfl, rfl, rfl, rfl⟩
+
+theorem C10_hub_update_applies (h h' : HubSt) (self sender : Addr)
+    (disp reg bsei stsei airdrop rewards updater : Option Addr) (ms : List Msg)
+    (hx : h.updateConfig self sender disp reg bsei stsei airdrop rewards updater = .ok (h', ms)) :
+    (∀ d, disp = some d → h'.dispatcher = some d) ∧ (∀ g, reg = some g → h'.registry = some g) ∧
+    (∀ a, airdrop = some a → h'.airdrop = some a) ∧ (∀ w, rewards = some w → h'.rewards = some w) ∧
+    (∀ u, updater = some u → h'.updater = u) ∧
+    (disp = none → h'.dispatcher = h.dispatcher) ∧ (reg = none → h'.registry = h.registry) ∧
+    (updater = none → h'.updater = h.updater) ∧ h'.creator = h.creator := by
+  simp only [HubSt.updateConfig, bind, Except.bind, throw, throwThe, MonadExceptOf.throw, pure, Except.pure] at hx
+  split at hx
+  · cases hx
+  · split at hx
+    · cases hx
+    · split at hx
+      · cases hx
+      · injection hx with h1; injection h1 with h1 h2; subst h1
+        refine ⟨?_, ?_, ?_, ?_, ?_, ?_, ?_, ?_, rfl⟩ <;> intros <;> simp_all [Option.orElse, Option.getD]
+
+
 /-! ### As whole transactions
 
   Decision tables + atomicity: a privileged message from a non-principal is a failed transaction —
